@@ -4,8 +4,8 @@
   Model: IQE.Engine.Compiled (the `Compiler` of src/physical/compiled_expr.rs and `CompiledPredicate::evaluate`), over the
   TRANSLATED `Gen.Compiled.{Cmp, Cmp.apply, CHUNK, MAX_REGS}`; interpreter: IQE.Engine.Filter with the kernels of the current
   tree (`Filter.Dev.current`: Kleene AND/OR since fix e4c7c04; `evaluateNow` models the hand-over of NULL batches that came with it).
-  `Dev.none` = intended compiled path (f64 comparison by total order, as the interpreter's Arrow kernels); `Dev.current` =
-  unchanged tree (`Cmp::apply` on f64 = IEEE `PartialOrd`), finding C06-F1.
+  `Dev.none` = intended compiled path (f64 comparison by total order, as the interpreter's Arrow kernels) = the current tree
+  (`Dev.current`, since fix 7400978); `Dev.ieee` = the tree before it (IEEE operators), finding C06-F1, kept for the witnesses.
   All theorems hold for every float-arithmetic instance `fo`, every schema, every batch length.
 -/
 import IQE.Lemmas.Compiled
@@ -23,7 +23,7 @@ theorem C06_pack_chunks (f : Row → Bool) (rows : List Row) : evalChunks f (row
     the per-batch hand-over to the interpreter when the program has AND/OR and a referenced column has NULLs) never declines and its
     mask AND validity equal the interpreter's, row for row, on every batch that has the schema's column types — any length, any NULL
     pattern, any float values (NaN, ±0.0, ±inf) and any arithmetic instance; stated for the compiled path with total-order f64 comparison
-    (`Dev.none`; the IEEE deviation of the unchanged tree is finding C06-F1, witnesses below). -/
+    (`Dev.none` = `Dev.current`; the former IEEE deviation is finding C06-F1, witnesses below). -/
 theorem C06_compile_correct (fo : FloatOps) (sch : List CTy) (e : PExpr) (p : Prog) (hc : compile sch e = some p)
     (rows : List Row) (hrows : ∀ r ∈ rows, conforms sch r = true) :
     ∃ vs, evaluateNow Dev.none fo p rows = some vs ∧
@@ -87,12 +87,12 @@ theorem C06_null_strict_validity (fo : FloatOps) (sch : List CTy) (e : PExpr) (p
 
 /-- The f64 comparison of the compiled path differs from the interpreter's only through IEEE-vs-total order: on pairs without NaN
     that are not two zeros the `Cmp::apply` instance (translated) IS the total-order comparison. -/
-theorem C06_ieee_eq_total_on_plain (c : Cmp) (x y : F64) (h : F64.Plain x y) : cmpF Dev.current c x y = cmpF Dev.none c x y := by
+theorem C06_ieee_eq_total_on_plain (c : Cmp) (x y : F64) (h : F64.Plain x y) : cmpF Dev.ieee c x y = cmpF Dev.none c x y := by
   have := F64.ieeeSat_eq_total h (binOpOf c)
-  cases c <;> simpa [cmpF, Dev.current, Dev.none, Cmp.apply, binOpOf, F64.ieeeSat, Rs.Cmp.eq, Rs.Cmp.lt, Rs.Cmp.le, Rs.ne, Rs.gt, Rs.ge,
+  cases c <;> simpa [cmpF, Dev.ieee, Dev.none, Cmp.apply, binOpOf, F64.ieeeSat, Rs.Cmp.eq, Rs.Cmp.lt, Rs.Cmp.le, Rs.ne, Rs.gt, Rs.ge,
     F64.ne, F64.gt, F64.ge] using this
 
-/-! ### Negation witnesses for the unchanged tree (`Dev.current`): `f > 0.5` drops NaN, `f = 0.0` matches -0.0 (A.6) -/
+/-! ### Negation witnesses for the IEEE comparison the tree used before fix 7400978 (`Dev.ieee`): `f > 0.5` drops NaN, `f = 0.0` matches -0.0 (A.6) -/
 
 def fo0 : FloatOps := { add := fun a _ => a, sub := fun a _ => a, mul := fun a _ => a, div := fun a _ => a, neg := fun a => a, ofInt := fun _ => ⟨0⟩, toInt := fun _ => none }
 def half : F64 := ⟨0x3FE0000000000000⟩
@@ -100,14 +100,16 @@ def fGtHalf : PExpr := .bin .gt (.col 0) (.litF64 half)
 def fEqZero : PExpr := .bin .eq (.col 0) (.litF64 F64.posZero)
 
 theorem C06_witness_nan : ∃ p, compile [.f64] fGtHalf = some p ∧
-    evaluateNow Dev.current fo0 p [[.f64 F64.nan]] = some [.bool false] ∧
+    evaluateNow Dev.ieee fo0 p [[.f64 F64.nan]] = some [.bool false] ∧
     Filter.eval Filter.Dev.current fo0 [.f64 F64.nan] fGtHalf.toExpr = .ok (.bool true) :=
   ⟨_, rfl, by decide, by decide⟩
 
 theorem C06_witness_negzero : ∃ p, compile [.f64] fEqZero = some p ∧
-    evaluateNow Dev.current fo0 p [[.f64 F64.negZero]] = some [.bool true] ∧
+    evaluateNow Dev.ieee fo0 p [[.f64 F64.negZero]] = some [.bool true] ∧
     Filter.eval Filter.Dev.current fo0 [.f64 F64.negZero] fEqZero.toExpr = .ok (.bool false) :=
   ⟨_, rfl, by decide, by decide⟩
+
+theorem C06_current_is_intended : Dev.current = Dev.none := rfl
 
 /-! ### non-vacuity -/
 example : (compile [.f64, .i64] (.bin .and fGtHalf (.between (.col 1) (.litI64 1) (.litI64 5) true))).isSome = true := by decide
